@@ -2729,7 +2729,12 @@ class Session(_SessionClassMethods, EventTarget):
             seen = set(all_states)
             for trans in self._transaction._iterate_self_and_parents():
                 for state in list(trans._deleted):
-                    if state not in seen and state.session_id == self.hash_key:
+                    if state.session_id != self.hash_key:
+                        continue
+                    # the transaction must not detach it a second time when
+                    # it ends
+                    trans._deleted.pop(state, None)
+                    if state not in seen:
                         seen.add(state)
                         all_states.append(state)
 
